@@ -1043,6 +1043,8 @@ func c12Alphabet() []c12Op {
 		{Kind: "hsmaint", Cert: stale, Inner: &c12Op{Kind: "add", Cert: c12P("h2", "t5")}},
 		{Kind: "hsmaint", Cert: stale, Inner: &c12Op{Kind: "ari", Cert: c12P("h2")}},
 		{Kind: "ocspmaint", Inner: &c12Op{Kind: "add", Cert: c12P("h2", "t5")}},
+		// updateARI through the issuer (second write-back site) with the certificate removed meanwhile
+		{Kind: "ari", Cert: c12P("h2"), Inner: rm("h2")},
 	}
 }
 
